@@ -100,6 +100,37 @@ pub fn content_with_zero_runs(len: usize, salt: u64, block: usize) -> Vec<u8> {
     v
 }
 
+/// Text-like content: CR LF, CR NUL and lone CR / LF sprinkled through it and placed across the block
+/// boundaries, the byte pairs a netascii translation would touch. The server transfers octets.
+pub fn content_texty(len: usize, salt: u64, block: usize) -> Vec<u8> {
+    let mut v = content(len, salt);
+    let b = block.max(2);
+    let mut i = 5;
+    let mut k = 0usize;
+    while i + 1 < len {
+        let pair: [u8; 2] = [[b'\r', b'\n'], [b'\r', 0], [b'\n', b'\r'], [b'\r', b'\r']][k % 4];
+        v[i] = pair[0];
+        v[i + 1] = pair[1];
+        k += 1;
+        i += 29 + (k % 7);
+    }
+    let mut e = b;
+    while e < len {
+        v[e - 1] = b'\r';
+        v[e] = if (e / b) % 2 == 0 { b'\n' } else { 0 };
+        e += b;
+    }
+    if len > 0 {
+        v[len - 1] = b'\r';
+    }
+    v
+}
+
+/// A transfer mode string: mostly "octet", sometimes another spelling or another mode name.
+pub fn draw_mode(r: u32) -> &'static str {
+    ["octet", "octet", "octet", "octet", "octet", "octet", "OCTET", "Octet", "netascii", "NetASCII", "netascii", "mail"][(r % 12) as usize]
+}
+
 /// Recursive snapshot (relative path -> content; directories map to None).
 pub fn snapshot(root: &Path) -> BTreeMap<String, Option<Vec<u8>>> {
     fn walk(root: &Path, dir: &Path, out: &mut BTreeMap<String, Option<Vec<u8>>>) {
